@@ -190,7 +190,7 @@ def member(field, rng):
         return rhex(rng, 4, "0123456789abcdef") + ":" + rhex(rng, 4, "0123456789abcdef")
     if field == "numa":
         return rng.choice(["-1", "0", "7", "3", "07", "-0", "5", "٣"])
-    return rng.choice(["x", "eth0", "p1", "some name", "", "a\nb", "é"])      # free-form fields
+    return rng.choice(["x", "eth0", "p1", "some name", "", "a\nb", "é", "None", "null"])      # free-form fields
 
 
 SPECIAL = {
@@ -236,9 +236,51 @@ def mutations(m, rng):
     return out
 
 
+# ---------------------------------------------------------------- sentinel look-alikes
+# Words a storage / codec layer may use as a placeholder for "no value" or as a reserved key.  Most of them ARE members of the
+# name / tag / boot-script / free-form domains, so they must survive every encode -> decode like any other member.  The literal
+# part is language-level (spellings of null / true / false / not-a-number / empty containers in Python, JSON, Cypher);
+# the rest is read from the running code base: every string constant of ABCPropertyGraphConstants (NEO4j_NONE, the property and
+# class names, relationship names).
+LITERAL_SENTINELS = ["None", "none", "NONE", "null", "NULL", "Null", "nil", "NaN", "nan", "True", "False", "true", "false", "undefined", "[]", "{}", '""',
+                     "''", "0", "00", "-1", "0.0", "__", "--", "..", "N/A", "n/a", "Infinity", "\\N", "<null>", "(null)", "None,None", "Nonee", "NoneNone",
+                     "None-1", " None", "None "]
+_CODE_SENTINELS = None
+
+
+def code_sentinels():
+    global _CODE_SENTINELS
+    if _CODE_SENTINELS is None:
+        out = set()
+        try:
+            from fim.graph.abc_property_graph_constants import ABCPropertyGraphConstants as K
+            for klass in K.__mro__:
+                for k, v in vars(klass).items():
+                    if isinstance(v, str) and not k.startswith("__") and 0 < len(v) <= 24:
+                        out.add(v)
+        except Exception:
+            pass
+        _CODE_SENTINELS = sorted(out)
+    return _CODE_SENTINELS
+
+
+def sentinel_words(dom=None, n=None, rng=None):
+    """the pool (optionally only the members of `dom`; optionally the literal ones plus a sample of n code constants)"""
+    code = [w for w in code_sentinels() if w not in LITERAL_SENTINELS]
+    if n is not None and rng is not None and len(code) > n:
+        code = rng.sample(code, n)
+    out = LITERAL_SENTINELS + code
+    return [w for w in out if dom is None or dom(w)]
+
+
+NAME_SENTINELS = ["None", "none", "null", "NaN", "True", "false", "00", "__", "Name"]     # head of every name pool (members of most name classes)
+
+
 def candidates(field, rng, n):
     """n strings for one field: the documented example, specials, then members and their mutations"""
     out = list(SPECIAL.get(field, []))
+    if field in FREE_FIELDS or field in ("bgp_key", "account_id", "region"):
+        out = ["None", "null", "NoneNone", "Labels"] + out
     while len(out) < n:
         m = member(field, rng)
         out.append(m)
@@ -248,12 +290,16 @@ def candidates(field, rng, n):
     return out[:n]
 
 
+NAME_HEAD = 32          # deterministic head of name_candidates (sentinel look-alikes + corner cases); the rest is random
+
+
 def name_candidates(cls, rng, n):
     extra = {"NodeSliver": "-.", "CompositeNodeSliver": "-.", "NetworkAttachedStorageSliver": "-.", "ComponentSliver": "-_. ",
              "NetworkServiceSliver": "-_.", "InterfaceSliver": "-+_/. :", "NetworkLinkSliver": "-+_/. :"}[cls]
     lo = 1 if cls == "InterfaceSliver" else 2
-    out = ["ab\n", "ab", "a", "", "a b", "a+b", "a/b", "a:b", "a_b", "a.b", "a-b", "a" * 255, "a" * 256, "a" * 254 + "\n", "a" * 255 + "\n",
+    out = NAME_SENTINELS + ["ab\n", "ab", "a", "", "a b", "a+b", "a/b", "a:b", "a_b", "a.b", "a-b", "a" * 255, "a" * 256, "a" * 254 + "\n", "a" * 255 + "\n",
            "né", "ab!", "ab\x00", "\nab", "a\nb", "ab\r", "  ", "中文"]
+    assert len(out) == NAME_HEAD
     while len(out) < n:
         m = rchars(rng, extra, lo, 255)
         out.append(m)
@@ -264,7 +310,7 @@ def name_candidates(cls, rng, n):
 
 
 def tag_candidates(rng, n):
-    out = ["abc\n", "abc", "a", "", "a-b", "a_b", "a b", "a.b", "a" * 255, "a" * 256, "a" * 255 + "\n", "été", "a\nb", "blue", "soft", "-",
+    out = ["None", "null", "NaN", "0", "Tags"] + ["abc\n", "abc", "a", "", "a-b", "a_b", "a b", "a.b", "a" * 255, "a" * 256, "a" * 255 + "\n", "été", "a\nb", "blue", "soft", "-",
            "a\r", "\nabc", "a/b"]
     while len(out) < n:
         m = rchars(rng, "-", 1, 255)
